@@ -132,4 +132,12 @@ PROPS = {
              "destination writes split in two halves and paused, 1..8 openers started before, during and after the stream; distinct = distinct (archive, mode, point, openers)",
         level_text="TODO", level_note="TODO", assumptions=[],
     ),
+    "C15": dict(
+        imports="Base.Path KV.Types Conc.Conc", check="C15_check", ctype="C15_case",
+        show="let '(s0, progs, _) := c in explore 200 s0 (map g_init progs)", n=dict(quick=60, thorough=1200), chunk=20,
+        rule="small concurrent programs (2..3 goroutines x 1..3 operations) on keyvalue.FS over the real in-memory store wrapped with scheduling points at every store transaction and lazy directory listing; "
+             "every schedule enumerated by stateless depth-first search (budget 600 per program; 3000 for the model's Mkdir/Remove/Stat alphabet, where the complete outcome SET is compared with the model's); "
+             "half of the programs use disjoint subtrees per goroutine (must commute), half share paths; plus free-running stress with 8 goroutines; distinct = distinct program",
+        level_text="TODO", level_note="TODO", assumptions=[],
+    ),
 }
